@@ -289,6 +289,30 @@ func genPrompt(rng *rand.Rand, k int) RunSpec {
 	return rs
 }
 
+// genWide: many workers (more than any fixed buffer size one might pick for the result channel), fail-fast,
+// one early failure while all other jobs are in flight and return only after the loop has stopped: every
+// worker must still be able to post its result and exit (C05, C06).
+func genWide(rng *rand.Rand, k int) RunSpec {
+	n := []int{70, 100, 130, 260}[rng.Intn(4)]
+	J := n + rng.Intn(30)
+	rs := RunSpec{Run: k, Seed: rng.Int63(), J: J, N: n, Coe: rng.Intn(4) == 0, CancelMode: "none", Cancel2Mode: "none"}
+	// the failing job is among the last to be picked up and quicker than the others: when the loop reads its
+	// failure nearly all workers are inside a body
+	failing := n - 1 - rng.Intn(5)
+	for j := 1; j <= J; j++ {
+		rs.Deps = append(rs.Deps, []int{})
+		o, b := "ok", 6000+rng.Intn(3000)
+		if j == failing {
+			o, b = "err", 500
+		}
+		rs.Out = append(rs.Out, o)
+		rs.Cls = append(rs.Cls, j)
+		rs.BodyUs = append(rs.BodyUs, b)
+		rs.EnqUs = append(rs.EnqUs, 0)
+	}
+	return rs
+}
+
 // genPileup steers towards the states in which results pile up unread in donec while the caller
 // keeps enqueueing dependency-free jobs: fail-fast, 2-4 workers, instant bodies, one early failure,
 // and an Emitter callback (it runs on the loop goroutine) that keeps the loop away from its select
@@ -506,8 +530,13 @@ func sleepUs(us int) {
 func (x *exec) body(j int) func(context.Context) error {
 	rs := &x.rs
 	return func(ctx context.Context) error {
-		atomic.AddInt32(&x.inBody, 1)
-		defer atomic.AddInt32(&x.inBody, -1)
+		if !x.nostamp {
+			// (under the race detector, -nostamp, the bodies touch no shared state at all: an atomic
+			// counter polled by the caller would order the caller's accesses before the workers' and
+			// hide races between the scheduler's goroutines)
+			atomic.AddInt32(&x.inBody, 1)
+			defer atomic.AddInt32(&x.inBody, -1)
+		}
 		if !x.nostamp {
 			note := ""
 			want := "marker"
@@ -734,6 +763,9 @@ func execRun(rs RunSpec, log *vt.APILog, col *vt.Collector, nostamp bool, deadli
 	// Quiescence: bodies that were started run to completion (none blocks),
 	// then every scheduler goroutine has to go away.
 	// (A body may still start after Wait has returned, so this is a poll, not a WaitGroup.)
+	if nostamp {
+		time.Sleep(3 * time.Millisecond) // longer than any body; no synchronisation with the workers
+	}
 	left := vt.WaitNoSchedulerGoroutines(3 * time.Second)
 	for i := 0; i < 3000 && atomic.LoadInt32(&x.inBody) > 0; i++ {
 		time.Sleep(time.Millisecond)
@@ -827,6 +859,11 @@ func main() {
 		rng := rand.New(rand.NewSource(*seed))
 		for k := 1; k <= *runs; k++ {
 			specs = append(specs, genPrompt(rng, k))
+		}
+	case "wide":
+		rng := rand.New(rand.NewSource(*seed))
+		for k := 1; k <= *runs; k++ {
+			specs = append(specs, genWide(rng, k))
 		}
 	case "pileup":
 		rng := rand.New(rand.NewSource(*seed))
